@@ -293,9 +293,14 @@ func genEntriesTok(r *Rng, tier string) string {
 		return "L(" + strings.Join(p, ";") + ")"
 	}
 	p := make([]string, n)
+	// a call that fails half way: an unencodable record after at least one good entry
+	bad := -1
+	if n >= 2 && r.Chance(12) {
+		bad = 1 + r.Intn(n-1)
+	}
 	for i := range p {
 		rec := genMapNode(r, 2, tier, false)
-		if r.Chance(2) {
+		if r.Chance(2) || i == bad {
 			poison(r, rec)
 		}
 		p[i] = fmt.Sprintf("E(%s;%s)", tokInstant(genGoTime(r)), tokVal(rec))
